@@ -12,6 +12,28 @@ def run(c: Check):
               "starts).  non-trivial = at least two token files at once or a refused acquisition (file token), an "
               "aborted two-token start (process token); distinct by (configuration, schedule)")
     tc.run_check(c, "C08")
+    rk = json.load(open(c.replay))["replay"].get("scenario", {}).get("kind") if c.replay else None
+    if not c.replay or rk == "startwin":
+        # the real Scheduler.aio_start on a slow-starting job, a second process watching the token directory:
+        # the token file of a starting / running job is never deleted
+        for k in range(1 if c.quick else 3):
+            sc = dict(kind="startwin", total=2, delay=[0.6, 0.3, 1.0][k], scratch=str(c.scratch()))
+            r = run_impl("drive_c08.py", dict(scenarios=[sc], timeout=120), timeout=200)[0]
+            c.evaluations += 1
+            c.extra.setdefault("start_window_runs", []).append(r)
+            if r.get("error") or not r.get("started"):
+                c.count("startwin:no-verdict")
+                continue
+            c.count("startwin:ok")
+            if not r["files_while_running"] or not r["files_after_slow_start"] or r["second_acquisition_granted"]:
+                sc.pop("scratch")
+                c.violation("C08:token-file-of-running-job-deleted",
+                            "real aio_start with another process watching the token directory: the token file of the job "
+                            "was deleted while the job was starting/running (files after the slow start: %s, while running: "
+                            "%s); a further request was %s although the job holds the whole token"
+                            % (r["files_after_slow_start"], r["files_while_running"],
+                               "granted" if r["second_acquisition_granted"] else "refused"),
+                            dict(scenario=sc, observed=r))
     if c.replay and json.load(open(c.replay))["replay"].get("scenario", {}).get("kind") == "stress":
         sc = dict(json.load(open(c.replay))["replay"]["scenario"], scratch=str(c.scratch()))
         r = run_impl("drive_c08.py", sc, timeout=120)
